@@ -6,21 +6,33 @@ import (
 	"encoding/json"
 	"fmt"
 	"hash"
+	"os"
 )
 
 // EventLog is the run's recorded history reduced to a hash: two runs of one
 // seed must produce the same sum (determinism self-test, replay check).
 // Logging never draws from the PRNG and never reads a clock.
 type EventLog struct {
-	h hash.Hash
-	n int
+	h    hash.Hash
+	n    int
+	keep *os.File // VERIF_ELOG_FILE: the text itself, for the determinism self-test's diff
 }
 
-func NewEventLog() *EventLog { return &EventLog{h: sha256.New()} }
+func NewEventLog() *EventLog {
+	e := &EventLog{h: sha256.New()}
+	if p := os.Getenv("VERIF_ELOG_FILE"); p != "" {
+		e.keep, _ = os.OpenFile(p, os.O_CREATE|os.O_WRONLY|os.O_APPEND, 0o644)
+	}
+	return e
+}
 
 func (e *EventLog) Add(format string, args ...any) {
 	fmt.Fprintf(e.h, format, args...)
 	e.h.Write([]byte{'\n'})
+	if e.keep != nil {
+		fmt.Fprintf(e.keep, format, args...)
+		e.keep.Write([]byte{'\n'})
+	}
 	e.n++
 }
 
@@ -29,9 +41,12 @@ func (e *EventLog) Add(format string, args ...any) {
 func (e *EventLog) Case(c *Case, r *BuildResult, volatile bool) {
 	cj, _ := json.Marshal(c)
 	if volatile {
-		// signed through nfpm's key-file path: salted signatures make bytes,
-		// lengths and write sizes differ from build to build
-		e.Add("case %s parse_failed=%v failed=%v fired=%d (key-file signed: bytes not logged)", cj, r.ParseErr != nil, r.Err != nil, r.Fired)
+		// signed through nfpm's key-file path: go-crypto salts signatures, so
+		// bytes, lengths, the sizes of the writes - and with them which fault
+		// cases exist at all (a partial write needs a write of two bytes or
+		// more) and how long a partial write is - differ from build to build.
+		// That randomness is not a seam of this harness (DESIGN 10.2); these
+		// cases keep their oracles but are not part of the replay hash.
 		return
 	}
 	sum := sha256.Sum256(r.Bytes)
